@@ -168,9 +168,9 @@ def main(argv=None):
             continue
         if r['out_of_reach']:
             undecided.append((u.name, r['out_of_reach']))
-        if not r['obligations'] and not r['out_of_reach'] and not u.bounded:
+        if not r['obligations'] and not r['out_of_reach'] and not u.bounded and not getattr(u, 'concrete_only', False):
             errors.append((u.name, 'vacuity: unit generated zero obligations (paths=%d)' % r['paths']))
-        elif u.level == 'property' and not r['out_of_reach'] and not any(o['kind'] not in ('helper', 'pre') for o in r['obligations']):
+        elif u.level == 'property' and not getattr(u, 'concrete_only', False) and not r['out_of_reach'] and not any(o['kind'] not in ('helper', 'pre') for o in r['obligations']):
             errors.append((u.name, 'vacuity: property-level unit produced no property clause (only loop/precondition obligations): its clauses were never reached'))
         solver_secs += r.get('solver_secs', 0)
         for o in r['obligations']:
